@@ -266,6 +266,70 @@ def splitlines_bytes(pieces):
     return lines
 
 
+def never_ends_in(R, C):
+    """no string of R ends with a character of class C"""
+    if R is None:
+        return UNKNOWN
+    anyc = z3.Star(z3.Range(strval("\x00"), strval(chr(0x2FFFF))))
+    return _valid(("noend", R.sexpr(), C.sexpr()), lambda: [z3.InRe(_x(), R), z3.InRe(_x(), z3.Concat(anyc, C))])
+
+
+def strip_chars(pieces, chars):
+    """s.strip(chars) on the structure: the list of pieces that remain; UNKNOWN when a boundary is not decided"""
+    from . import sym
+    ps = list(pieces)
+    # leading constants made of strip characters only
+    while ps and ps[0].const is not None:
+        k = 0
+        while k < len(ps[0].const) and ps[0].const[k] in chars:
+            k += 1
+        if k == len(ps[0].const):
+            ps.pop(0)
+            continue
+        ps[0] = Piece(const=ps[0].const[k:])
+        break
+    if not ps:
+        return []
+    if ps[0].const is None:
+        # x ++ (constants over the strip characters)*  with x free of strip characters: the result is x, empty or not
+        if avoids_chars(ps[0].regex, chars) is True and all(q.const is not None and all(ch in chars for ch in q.const) for q in ps[1:]):
+            return [ps[0]]
+        if not (never_empty(ps[0].regex) is True and never_starts_in(ps[0].regex, sym.re_chars(chars)) is True):
+            return UNKNOWN
+    # the left boundary is fixed (the first remaining character is not a strip character): now the right end
+    while ps and ps[-1].const is not None:
+        c = ps[-1].const
+        k = len(c)
+        while k > 0 and c[k - 1] in chars:
+            k -= 1
+        if k == 0:
+            ps.pop()
+            continue
+        ps[-1] = Piece(const=c[:k])
+        return ps
+    if not ps:
+        return []
+    if never_empty(ps[-1].regex) is True and never_ends_in(ps[-1].regex, sym.re_chars(chars)) is True:
+        return ps
+    return UNKNOWN
+
+
+def replace_all_char(pieces, old, new):
+    """s.replace(old, new) for a single character `old`, on the structure: exact when no symbolic piece can contain `old`
+    (then every occurrence lies in a constant piece); UNKNOWN otherwise"""
+    if len(old) != 1:
+        return UNKNOWN
+    out = []
+    for pc in pieces:
+        if pc.const is None:
+            if avoids_chars(pc.regex, old) is not True:
+                return UNKNOWN
+            out.append(pc)
+        else:
+            out.append(Piece(const=pc.const.replace(old, new)))
+    return out
+
+
 def split_ws_once(pieces, ws):
     """s.split(None, 1) on the structure: [] | [field] | [field, rest]; UNKNOWN when a symbolic piece might contain
     white space where it matters (the rest after the first white-space run is taken as it is, whatever it contains)"""
